@@ -99,14 +99,15 @@ fn second_key(r: &mut Rng, n: usize, tags: &mut Vec<String>) -> Vec<i64> {
 /// other table's column changes the answer.  Tag `shape:shared-name-semi`.
 pub fn gen_shared_semi(r: &mut Rng) -> (Vec<Tbl>, String, Vec<String>) {
     let mut tags: Vec<String> = vec!["shape:shared-name-semi".into()];
-    let mk = |r: &mut Rng, name: &str, third: &str, n: usize, nullable: bool| -> Tbl {
-        let rows: Vec<Vec<i64>> = (0..n).map(|i| vec![i as i64 + 1, if nullable && r.chance(1, 6) { NULL } else { r.below(5) as i64 }, 1 + r.below(5) as i64, r.below(4) as i64]).collect();
-        Tbl::new(name, vec![("id".into(), CT::I64), ("k".into(), CT::I64), (third.into(), CT::I64), ("v".into(), CT::I64)], ints(&rows))
+    // the fifth column has a name of its own (ua / ub / uc): a predicate on it can be pushed by the unchanged rule
+    let mk = |r: &mut Rng, name: &str, third: &str, own: &str, n: usize, nullable: bool| -> Tbl {
+        let rows: Vec<Vec<i64>> = (0..n).map(|i| vec![i as i64 + 1, if nullable && r.chance(1, 6) { NULL } else { r.below(5) as i64 }, 1 + r.below(5) as i64, r.below(4) as i64, r.below(5) as i64]).collect();
+        Tbl::new(name, vec![("id".into(), CT::I64), ("k".into(), CT::I64), (third.into(), CT::I64), ("v".into(), CT::I64), (own.into(), CT::I64)], ints(&rows))
     };
     let nullable = r.chance(1, 3);
     if nullable { tags.push("f:nullable_k".into()); }
     let (na, nb, nc) = (1 + r.below(8) as usize, 1 + r.below(10) as usize, r.below(7) as usize);
-    let tables = vec![mk(r, "ta", "fk", na, nullable), mk(r, "tb", "fk", nb, nullable), mk(r, "tc", "k2", nc, false)];
+    let tables = vec![mk(r, "ta", "fk", "ua", na, nullable), mk(r, "tb", "fk", "ub", nb, nullable), mk(r, "tc", "k2", "uc", nc, false)];
     // FROM clause, its join condition when it goes to WHERE, and the qualifiers of its inputs (left to right)
     let (from, wjoin, quals, form): (&str, &str, Vec<&str>, &str) = match r.below(8) {
         0 | 1 => ("ta a JOIN tb b ON a.id = b.fk", "", vec!["a", "b"], "join"),
@@ -121,7 +122,9 @@ pub fn gen_shared_semi(r: &mut Rng) -> (Vec<Tbl>, String, Vec<String>) {
     let side = r.below(quals.len() as u64) as usize;
     let q = quals[side];
     tags.push(format!("f:side_{}", if side == 0 { "left" } else { "right" }));
-    let col = *r.pick(&["k", "k", "k", "id", "v"]);
+    let own_of = |q: &str| -> &'static str { match (form, q) { ("selfjoin", _) => "ua", (_, "a") | (_, "ta") => "ua", (_, "b") | (_, "tb") => "ub", _ => "uc" } };
+    let col = *r.pick(&["k", "k", "k", "id", "v", "own", "own"]);
+    let col = if col == "own" { tags.push("f:own_column".into()); own_of(q) } else { col };
     let sc = *r.pick(&["k2", "k", "k", "id"]);
     let w = if r.chance(1, 3) { format!(" WHERE v >= {}", r.below(3)) } else { String::new() };
     let pred = match r.below(6) {
